@@ -1,4 +1,49 @@
-(* C05 - placeholder until the theorems are in place. *)
-Require Import RQ.Base RQ.Target.
-Theorem C05_placeholder : True. Proof. exact I. Qed.
-Print Assumptions C05_placeholder.
+(* C05 - The effective clip is the intersection of every clip pushed and not yet popped. *)
+Require Import RQ.Base RQ.F32 RQ.Rect RQ.Pixel RQ.Raster RQ.PathF RQ.Shader RQ.Surface RQ.Target RQ.TargetProofs RQ.OpsProofs RQ.ClipProofs.
+
+(* (1) One step: whatever the call (clip push/pop, transform, layer push/pop, any drawing call, surface copy),
+   if the clip stack summarised the pushed-and-not-popped requests g before, it summarises the updated
+   requests after: a rectangle push adds a rectangle, a path push adds that path's coverage mask, a pop
+   removes the newest request - so pop restores exactly the previous clip - and nothing else touches it. *)
+Theorem C05_clip_stack_step : forall st o st' g, d_probe st = 0 -> clip_inv st g -> step_op st o = Ok st' ->
+  exists g', ghost_after o g g' /\ clip_inv st' g'.
+Proof. exact clip_inv_step. Qed.
+Print Assumptions C05_clip_stack_step.
+
+(* (2) Any call sequence from a state whose stack is a summary (e.g. a fresh target, clip_inv_fresh) *)
+Theorem C05_clip_stack_is_summary : forall ops st g st', d_probe st = 0 -> clip_inv st g -> run_ops st ops = Ok st' ->
+  exists g', clip_inv st' g'.
+Proof. exact clip_stack_is_summary. Qed.
+Print Assumptions C05_clip_stack_is_summary.
+
+(* (3) What the summary is. Bounds: a pixel is inside the clip bounds iff it is inside the surface and inside
+   EVERY rectangle request, in whatever order they were pushed, with paths in between or not *)
+Theorem C05_bounds_are_the_intersection : forall surf g X Y,
+  r_in (rect_of surf g) X Y = true <-> r_in surf X Y = true /\ forall r, In (CRect r) g -> r_in r X Y = true.
+Proof. exact rect_of_in. Qed.
+Print Assumptions C05_bounds_are_the_intersection.
+Theorem C05_disjoint_rectangles_clip_everything : forall surf g r1 r2 X Y,
+  In (CRect r1) g -> In (CRect r2) g -> r_in r1 X Y = false \/ r_in r2 X Y = false -> r_in (rect_of surf g) X Y = false.
+Proof. exact empty_intersection_clips_all. Qed.
+Print Assumptions C05_disjoint_rectangles_clip_everything.
+
+(* (4) Mask: where ANY pushed path has coverage 0 the combined clip coverage is 0 (so by C02 nothing is drawn
+   there); rectangles pushed above paths keep the mask, paths pushed above rectangles keep the bounds *)
+Theorem C05_zero_path_coverage_clips : forall n g mk m i, masks_long n g -> mask_of n g = Some mk -> In (CPath m) g ->
+  0 <= i < Z.of_nat n -> zn m i = 0 -> zn mk i = 0.
+Proof. exact mask_of_zero. Qed.
+Print Assumptions C05_zero_path_coverage_clips.
+Theorem C05_rect_after_path_keeps_mask : forall n g r, mask_of n (CRect r :: g) = mask_of n g.
+Proof. exact mask_survives_rect. Qed.
+Theorem C05_path_after_rect_keeps_bounds : forall surf g m, rect_of surf (CPath m :: g) = rect_of surf g.
+Proof. exact rect_survives_path. Qed.
+(* the combined coverage is the rounded product of the factors, per pixel *)
+Theorem C05_mask_is_product : forall n m prev i, 0 <= i < Z.of_nat n -> (n <= length m)%nat -> (n <= length prev)%nat ->
+  zn (combine_masks n m prev) i = wrapu8 (muldiv255 (zn m i) (zn prev i)).
+Proof. exact zn_combine. Qed.
+Print Assumptions C05_mask_is_product.
+
+(* non-vacuity: rectangle, path-less nesting on a 4x4 target *)
+Example C05_example :
+  clip_bounds (push_clip_rect (push_clip_rect (dt_new 4 4 (repeat 0 16)) (mkrect 1 0 9 3)) (mkrect (-2) 1 3 7)) = mkrect 1 1 3 3.
+Proof. vm_compute. reflexivity. Qed.
